@@ -19,6 +19,38 @@ inline SU_vector make_vec(const std::vector<double>& c, int d) {
   for (int i = 0; i < d * d; i++) v[i] = c[i];
   return v;
 }
+// A vector with the given components in one of the storage kinds the library distinguishes: self-owned (sized constructor),
+// externally backed on an exact-size buffer (optimally aligned / 8 mod 32 / 24 mod 32), built from a component list, from
+// make_aligned, from a Hermitian matrix (components re-imposed afterwards so that they are exact), or a copy of a view.
+struct VecHolder {
+  std::vector<double> raw; std::unique_ptr<SU_vector> v; const char* kind = "owned";
+  SU_vector& make(const std::vector<double>& c, int d, unsigned k) {
+    static const char* K[] = {"owned", "external-aligned", "external+1", "external+3", "list", "make_aligned", "copy-of-view", "from-matrix"};
+    kind = K[k % 8];
+    switch (k % 8) {
+      case 1: case 2: case 3: case 6: {
+        raw.assign(d * d + 8, 7e77);
+        double* b = raw.data();
+        while (((uintptr_t)b) % 32 != 0) b++;
+        b += (k % 8 == 2 ? 1 : k % 8 == 3 ? 3 : 0);
+        for (int i = 0; i < d * d; i++) b[i] = c[i];
+        if (k % 8 == 6) { SU_vector view(d, b); v.reset(new SU_vector(view)); }
+        else v.reset(new SU_vector(d, b));
+        break;
+      }
+      case 4: v.reset(new SU_vector(c)); break;
+      case 5: v.reset(new SU_vector(SU_vector::make_aligned(d))); for (int i = 0; i < d * d; i++) (*v)[i] = c[i]; break;
+      case 7: {
+        gsl_matrix_complex* m = gsl_matrix_complex_calloc(d, d);
+        v.reset(new SU_vector(m)); gsl_matrix_complex_free(m);
+        for (int i = 0; i < d * d; i++) (*v)[i] = c[i];
+        break;
+      }
+      default: v.reset(new SU_vector(d)); for (int i = 0; i < d * d; i++) (*v)[i] = c[i]; break;
+    }
+    return *v;
+  }
+};
 inline Mat toM(const SU_vector& v) { return toM(comps(v), (int)v.Dim()); }
 inline std::string vec_str(const std::vector<double>& c) {
   std::string s = "[";
